@@ -37,8 +37,40 @@ class Ctx:
     def run(self, **kw):
         return self.explore(self.roles.RUN, **kw)
 
-    def wrap(self, **kw):
-        return self.explore(self.roles.WRAP, **kw)
+    def wrap(self, gen_cancel=False, gen_bodyexc=False, **kw):
+        """the window wrapper, explored through its factory: the factory body is walked first (so that
+        what the closure captures - the window, its queue, the job - has its provenance), then the
+        closure it returns is walked as the body of the task"""
+        key = ('wrap', gen_cancel, gen_bodyexc, tuple(sorted(kw.items())))
+        if key in self._cache:
+            return self._cache[key]
+        from .flow import Out
+        r = self.roles
+        an = RunModel(self.prog, self.roles, self.sigs, gen_cancel=gen_cancel, gen_bodyexc=gen_bodyexc, **kw)
+        ip = Interp(self.prog, an)
+        saved = an.on_return
+        an.on_return = lambda ip_, node, val, st, fr: st          # the factory's own return is not an exit
+        out0 = ip.run(r.wrap_factory)
+        an.on_return = saved
+        out = Out()
+        n = 0
+        for (st, t, node) in out0.ret:
+            if t[0] != 'closure' or t[1] != r.WRAP.qualname:
+                continue
+            n += 1
+            o = Out()
+            for (y, val) in ip.inline(r.WRAP, None, (), (), t, st, ip.root, o, r.WRAP.node):
+                y = an.on_return(ip, r.WRAP.node, val, y, ip.root)
+                if y is not None:
+                    out.ret.append((y, val, r.WRAP.node))
+            out.exc += o.exc
+        if not n:
+            raise AnalysisError("the wrap factory %s does not return its closure" % r.wrap_factory.qualname)
+        self.stats['functions_analysed'] |= {r.wrap_factory.qualname, r.WRAP.qualname} | ip.inlined
+        self.stats['states'] += ip.nstates
+        self.stats['calls'] += ip.calls_seen
+        self._cache[key] = (an, ip, out)
+        return self._cache[key]
 
     def broadcast(self, **kw):
         return self.explore(self.roles.BROADCAST, **kw)
